@@ -109,11 +109,19 @@ func TestVerifC05(t *testing.T) {
 			for _, mpdName := range names {
 				k := 0
 				for _, mode := range []string{"number", "tltime", "tlnr"} {
-					for _, ato := range []int64{0, segMS / 2} {
+					// offsets of several segments, beyond one and two loops of the asset (a low-latency offset may exceed a segment
+					// with SegmentTimeline): the edge still advances one segment at a time
+					for _, ato := range []int64{0, segMS / 2, a.LoopMS * 3 / 2, a.LoopMS*5/2 + segMS/2} {
+						if ato > segMS && mode == "number" {
+							continue
+						}
 						for _, tsbd := range []int64{10, 60, 7} {
 							for _, periods := range []int{0, 60} {
 								for _, stopK := range []int{0, 1, 2} {
 									for _, start := range []int64{0, 1_700_000_000} {
+										if ato > segMS && (periods > 0 || stopK != 0 || tsbd != 10) {
+											continue
+										}
 										if periods > 0 && !c05PeriodAligned(a, periods) {
 											continue // such period durations must be rejected: decided by C06, not walked here
 										}
